@@ -143,10 +143,20 @@ def run(ctx, rep):
                             type(ex).__name__, ex), {'defaults': specs, 'exclude_deprecated': excl})
                 rep.case(key='crash%d' % case, nontrivial=True)
                 continue
-            with open(out, newline='') as fh:
-                ytext = fh.read()
-            with open(outj, newline='') as fh:
-                jtext = fh.read()
+            try:
+                with open(out, newline='') as fh:
+                    ytext = fh.read()
+                with open(outj, newline='') as fh:
+                    jtext = fh.read()
+            except OSError as ex:
+                rep.fail('c17nofile:%r' % [(s['name'], s['check_str']) for s in specs],
+                         'the sample generator did not write the requested output file: %s' % ex, {'defaults': specs})
+                rep.case(key='nofile%d' % case, nontrivial=True)
+                continue
+            finally:
+                for f_ in (out, outj):
+                    if os.path.exists(f_):
+                        os.unlink(f_)
             # model request
             wtab, stab, mdefs = {'': []}, {}, []
             for s in specs:
